@@ -200,3 +200,20 @@ func specListMode(metadata []Metadata) bool {
 func same(a, b JsonNode) bool {
 	return verifLit(a) == verifLit(b)
 }
+
+func validHunk(de DiffElement) bool {
+	return validNodes(de.Path) && validNodes(de.OldValues) && validNodes(de.NewValues)
+}
+
+func validDiff(d Diff) bool {
+	return forallInt(0, len(d), func(i int) bool { return validHunk(d[i]) })
+}
+
+// specScalarAny: a native scalar that NewJsonNode always accepts.
+func specScalarAny(x interface{}) bool {
+	switch x.(type) {
+	case float64, int, string, bool, nil:
+		return true
+	}
+	return false
+}
